@@ -4,7 +4,7 @@ import json, itertools, copy
 import numpy as np
 from . import core, meta as M, suite_meta as SM
 
-THEOREMS = ['Source.get_valid_classes_is_model', 'Source.get_valid_classes_refuses', 'Source.get_multiplicity_is_model', 'Source.translator_complete_meta', 'Source.get_meta_index_is_model', 'Source.meta_valid_is_model', 'C08.getMeta_matched', 'C08.getMeta_mismatch', 'C08.getMeta_noindex', 'C08.getMeta_bounds',
+THEOREMS = ['C08.getMeta_matched', 'C08.getMeta_mismatch', 'C08.getMeta_noindex', 'C08.getMeta_bounds',
             'C08.metaValid_matched']
 
 SENTINEL = '__DEFAULT__'
